@@ -6,7 +6,7 @@ import core
 from rig import Rig, MockFrame
 
 ID = 'C04'
-EXTRACT = ['limiter']
+EXTRACT = ['limiter', 'configsvc']     # configsvc: read-only, for the installation model's tie (Model/LimiterInstallSvc)
 LEAN_TARGETS = ['DeepModel.Props.C04']
 AUDIT = 'DeepModel/Audit/C04.lean'
 DRIVER = 'DeepModel/Driver/C04.lean'
@@ -15,7 +15,7 @@ TIME = {'quick': 100, 'thorough': 800}
 RULE = ('histories: action kind (snapshot/log/metric/span) x fire_count text x fire_period text x window x up to 40 '
         'hits with scripted clock (boundary spacings: exactly period, +-1 ns, backwards steps) and per-hit condition '
         '(true/false/raising) and, in 30% of the histories, unrelated configuration changes (register/unregister of another tracepoint through the real TracepointConfigService) between hits, driven through the real TriggerHandler.trace_call; a labelled stream in which the service re-sends the tracepoint in a later UPDATE (compared with the per-installation run of the model; the reading of the statement is the known finding C04/update-resets-count); one tracepoint yielding sibling actions (snapshot+metrics+span, metric processor failing part-way: the hit still counts) judged per action; several tracepoints with different limits on one line (merged into one trigger or separate triggers) judged per tracepoint; schedules: all 20 interleavings of '
-        '2 threads x (check, process, record) forced with gates inside the condition and a watch, plus 3-4 thread schedules (mutually exclusive ones that are not plain blocks: unstarted / unfinished threads, extra entries; and random interleavings), every thread with its own clock value (not in arrival order, boundary spacings around the period) and condition outcome, half of them with the clock READ as a gated region of its own; the time stamps of the collections are compared with the timed concurrent model (in order when check…record stay mutually exclusive, as a multiset otherwise) and judged against the sequential reference; lifecycle: one tracepoint from the service or registered in code under operation sequences (UPDATE responses with/without it through the real convert_response on protobuf messages, NO_CHANGE, other registrations, register/unregister) judged per installation by a reference written from the statement (an UPDATE that re-sends an installed service tracepoint is the known finding C04/update-resets-count). A case is '
+        '2 threads x (check, process, record) forced with gates inside the condition and a watch, plus 3-4 thread schedules (mutually exclusive ones that are not plain blocks: unstarted / unfinished threads, extra entries; and random interleavings), every thread with its own clock value (not in arrival order, boundary spacings around the period) and condition outcome, half of them with the clock READ as a gated region of its own; the time stamps of the collections are compared with the timed concurrent model (in order when check…record stay mutually exclusive, as a multiset otherwise) and judged against the sequential reference; lifecycle: one tracepoint from the service or registered in code under operation sequences (UPDATE responses with/without it through the real convert_response on protobuf messages, NO_CHANGE, other registrations, register/unregister) judged per installation by a reference written from the statement (an UPDATE that re-sends an installed service tracepoint is an instance of the known finding C04/update-resets-count only when the reset changes what may be collected; re-deliveries before the first hit are judged fully), 40% of them as ONE tracepoint with several actions (snapshot + two metrics [+ span]) judged and compared with the model per ACTION. A case is '
         'non-trivial when at least one hit is rejected by a limit and at least one collects (or, for schedules, when '
         'the threads overlap). Distinct = distinct canonical JSON of the case.')
 TRUSTED = ['threading.Lock/Event, CPython GIL atomicity of one attribute store (regions check/process/record)',
@@ -197,7 +197,15 @@ def gen_lifecycle(rng):
             elif kind != 'own':
                 ops.append({'op': kind})
         ops.append({'op': 'hit', 'ts': h['ts'], 'cond': h['cond']})
-    return {'kind': 'lifecycle', 'origin': origin, 'action': base['action'], 'cfg': cfg, 'ops': ops}
+    if installed and origin == 'service' and rng.random() < 0.35:
+        # re-delivered BEFORE any hit: whether a re-delivery resets the limits cannot matter, so the case is judged fully
+        ops[1:1] = [{'op': rng.choice(['no_change', 'other_custom'])}] * rng.choice([0, 1]) + [{'op': 'update', 'present': True}]
+    case = {'kind': 'lifecycle', 'origin': origin, 'action': base['action'], 'cfg': cfg, 'ops': ops}
+    if rng.random() < 0.4:
+        # ONE tracepoint, several actions (snapshot + two metrics [+ span]): each action has its own budget
+        case['action'] = 'snapshot'
+        case['multi'] = ['snapshot', 'metric'] + (['span'] if rng.random() < 0.6 else [])
+    return case
 
 
 def gen(rng, tier):
@@ -276,6 +284,11 @@ def corpus():
                  {'op': 'update', 'present': True}, {'op': 'hit', 'ts': 20, 'cond': 'true'}, {'op': 'unregister'},
                  {'op': 'hit', 'ts': 30, 'cond': 'true'}, {'op': 'register'}, {'op': 'hit', 'ts': 40, 'cond': 'true'},
                  {'op': 'hit', 'ts': 50, 'cond': 'true'}]},
+        # snapshot + metrics + span of one tracepoint, delivered twice before the first hit: every action has its own budget
+        {'kind': 'lifecycle', 'origin': 'service', 'action': 'snapshot', 'multi': ['snapshot', 'metric', 'span'],
+         'cfg': {'fire_period': '0'},
+         'ops': [{'op': 'update', 'present': True}, {'op': 'update', 'present': True},
+                 {'op': 'hit', 'ts': 10, 'cond': 'true'}, {'op': 'hit', 'ts': 20, 'cond': 'true'}]},
         # a service tracepoint: removed by an UPDATE without it, NO_CHANGE and other registrations do not reset it
         {'kind': 'lifecycle', 'origin': 'service', 'action': 'log', 'cfg': {'fire_count': '2', 'fire_period': '0'},
          'ops': [{'op': 'update', 'present': True}, {'op': 'hit', 'ts': 10, 'cond': 'true'}, {'op': 'no_change'},
@@ -564,6 +577,11 @@ def lifecycle_args(case):
     for k in ('fire_count', 'fire_period'):
         if k in case['cfg']:
             args[k] = case['cfg'][k]
+    if case.get('multi'):
+        args['frame_type'] = 'no_frame'
+        if 'span' in case['multi']:
+            args['span'] = 'line'
+        return args
     if kind == 'log':
         args.update(snapshot='no_collect', log_msg='hit')
     elif kind == 'metric':
@@ -589,14 +607,20 @@ def run_lifecycle(case):
         rig.tasks = SyncTasks()
         svc.set_task_handler(rig.tasks)
         args = lifecycle_args(case)
-        is_metric = case.get('action') == 'metric'
+        multi = case.get('multi')
+        is_metric = case.get('action') == 'metric' or bool(multi)
+
+        def counts():
+            return {'snapshot': len(rig.push.pushed), 'metric': len(rig.metric.calls),
+                    'span': len([e for e in rig.span.events if e[0] == 'open'])}
+        per_kind = {k: [] for k in (multi or [])}
 
         def response(present, n):
             tps = [TracePointConfig(ID='other%d' % n, path='elsewhere.py', line_number=3, args={})] if n % 2 else []
             if present and case['origin'] == 'service':
                 tps.insert(n % (len(tps) + 1), TracePointConfig(
                     ID='tp1', path='host.py', line_number=7, args=args,
-                    metrics=[Metric(name='m', type=0)] if is_metric else []))
+                    metrics=([Metric(name='m', type=0)] + ([Metric(name='m2', type=1)] if multi else [])) if is_metric else []))
             return [TracePointConfig.FromString(t.SerializeToString()) for t in tps]
         state = {'cond': 'true'}
 
@@ -620,22 +644,27 @@ def run_lifecycle(case):
                         others.append(svc.add_custom('elsewhere.py', 9, {}, [], []))
                 elif k == 'register':
                     rid = svc.add_custom('host.py', 7, dict(args), [],
-                                         [MetricDefinition('m', 'COUNTER')] if is_metric else [])
+                                         ([MetricDefinition('m', 'COUNTER')] +
+                                          ([MetricDefinition('m2', 'GAUGE')] if multi else [])) if is_metric else [])
                 elif k == 'unregister':
                     if rid is not None:
                         svc.remove_custom(rid)
                 else:
                     state['cond'] = op['cond']
                     rig.clock = op['ts']
-                    before = rig.effect_count()
+                    before, b4 = rig.effect_count(), counts()
                     loc = {'cond': cond, 'x': 1}
                     rig.handler.trace_call(MockFrame('/app/host.py', 'fn', 7, loc), 'line', None)
                     rig.handler.trace_call(MockFrame('/app/host.py', 'fn', 8, loc), 'line', None)
                     if rig.effect_count() > before:
                         collected.append(op['ts'])
+                    after = counts()
+                    for kk in per_kind:
+                        if after[kk] > b4[kk]:
+                            per_kind[kk].append(op['ts'])
             except BaseException as e:      # noqa: B902
                 return {'raised': f'{k}: {type(e).__name__}: {e}', 'collected': collected}
-        return {'collected': collected}
+        return {'collected': per_kind} if multi else {'collected': collected}
     finally:
         rig.close()
 
@@ -745,6 +774,11 @@ def oracle(case, obs):
         if 'raised' in obs:
             return ['the agent raised: ' + obs['raised']]
         exp = lifecycle_reference(case)
+        if case.get('multi'):
+            what = 'registered in code' if case['origin'] == 'code' else 'from the service'
+            return [f'{k} action of the tracepoint {what} ({case["cfg"]}, actions {case["multi"]}) over '
+                    f'{[o["op"] for o in case["ops"] if o["op"] != "hit"]}: collected {got[:8]}.., while installed ITS OWN '
+                    f'limits and the conditions permit exactly {exp[:8]}..' for k, got in obs['collected'].items() if got != exp]
         if obs['collected'] != exp:
             what = 'registered in code' if case['origin'] == 'code' else 'from the service'
             return [f'tracepoint {what} ({case["cfg"]}) over {[o["op"] for o in case["ops"] if o["op"] != "hit"]}: '
@@ -823,7 +857,9 @@ def known_finding(case, obs):
     if case['kind'] in ('multi', 'siblings'):
         return None
     if case['kind'] == 'lifecycle':
-        return 'C04/update-resets-count' if resent_while_installed(case) else None
+        # an instance of the finding = a re-delivery whose reset of the limits changes what may be collected
+        return 'C04/update-resets-count' if (resent_while_installed(case) and
+                                             lifecycle_reference(case, True) != lifecycle_reference(case, False)) else None
     if case['kind'] == 'schedule' and overlapping(case):
         return 'C04/2-threads-check-check-record-record'
     if case['kind'] == 'history' and case['cfg'].get('window_in_args'):
@@ -834,6 +870,9 @@ def known_finding(case, obs):
 
 
 def model_request(case, obs):
+    if case['kind'] == 'lifecycle' and case.get('multi'):
+        return {'op': 'opsN', 'origin': case['origin'], 'cfgs': [case['cfg']] * len(case['multi']),
+                'ops': [dict(o, cond=o['cond'] == 'true') if o['op'] == 'hit' else o for o in case['ops']]}
     if case['kind'] == 'lifecycle':
         return {'op': 'ops', 'origin': case['origin'], 'cfg': case['cfg'],
                 'ops': [dict(o, cond=o['cond'] == 'true') if o['op'] == 'hit' else o for o in case['ops']]}
@@ -869,11 +908,24 @@ def compare(case, obs, resp):
         return ['model error: ' + resp['error']]
     if 'raised' in obs:
         return ['implementation raised, model does not: ' + obs['raised']]
+    if case['kind'] == 'lifecycle' and case.get('multi'):
+        got = [obs['collected'][k] for k in case['multi']]
+        if got != resp['collected']:
+            return [f'collected per action {case["multi"]}: model {resp["collected"]} vs implementation {got}']
+        return []
     if case['kind'] == 'siblings':
         got = [obs['collected'][k] for k in sorted(obs['collected'])]
         if sorted(map(tuple, resp['collected'])) != sorted(map(tuple, got)):
             return [f'collected per action: model {resp["collected"]} vs implementation {obs["collected"]}']
         return []
+    if case['kind'] == 'lifecycle' and not case.get('multi'):
+        d = []
+        if resp['ages_svc'] != resp['ages_model']:
+            d.append(f'installation model vs the TRANSLATED configuration service: hits seen by the installed object '
+                     f'{resp["ages_svc"]} (service) vs {resp["ages_model"]} (stepOp)')
+        if resp['collected'] != obs['collected']:
+            d.append(f'collected: model {resp["collected"]} vs implementation {obs["collected"]}')
+        return d
     if case['kind'] == 'schedule':
         d = []
         got = obs.get('collected_ts', [])
@@ -897,7 +949,7 @@ def label(case, obs):
     if case['kind'] == 'lifecycle':
         kinds = {o['op'] + ('+' if o.get('present') else '-') if o['op'] == 'update' else o['op'] for o in case['ops']}
         kinds.discard('hit')
-        return 'lifecycle/%s/%s/%s' % (case['origin'], case['action'],
+        return 'lifecycle/%s/%s/%s' % (case['origin'], '+'.join(case['multi']) if case.get('multi') else case['action'],
                                        'resent' if resent_while_installed(case) else
                                        'reinstalled' if len([o for o in case['ops'] if o['op'] in ('register',) or
                                                              (o['op'] == 'update' and o['present'] and case['origin'] == 'service')]) > 1
@@ -920,7 +972,9 @@ def label(case, obs):
 def nontrivial(case, obs):
     if case['kind'] == 'lifecycle':
         hits = [o for o in case['ops'] if o['op'] == 'hit' and o['cond'] == 'true']
-        return 0 < len(obs.get('collected', [])) < len(hits) and any(o['op'] != 'hit' for o in case['ops'][1:])
+        got = obs.get('collected', [])
+        got = got.get('snapshot', []) if isinstance(got, dict) else got
+        return 0 < len(got) < len(hits) and any(o['op'] != 'hit' for o in case['ops'][1:])
     if case['kind'] == 'siblings':
         c = obs.get('collected', {}).get('snapshot', [])
         return 0 < len(c) < len(case['hits'])
@@ -939,7 +993,7 @@ def shrink(case):
         for i in range(len(ops)):
             c = dict(case)
             c['ops'] = ops[:i] + ops[i + 1:]
-            if c['ops'] and valid_lifecycle(c) and resent_while_installed(c) == resent_while_installed(case):
+            if c['ops'] and valid_lifecycle(c) and known_finding(c, None) == known_finding(case, None):
                 yield c
         return
     if case['kind'] in ('multi', 'siblings'):
